@@ -622,19 +622,35 @@ var ruleCollBlind = &Rule{
 							case *ssa.Call:
 								bad = "argument of the call to " + calleeName(&x.Call) + " at " + p.pos(x.Pos())
 							case *ssa.Return:
-								// a named predicate (a function that is nothing but
-								// such tests) may return it: its callers are held to
-								// the same rule
-								if h := x.Parent(); tinyPredicate(h) && p.CG.Nodes[h] != nil {
+								// a named test may return it (`existenceOnly(next,
+								// found)`, `nextUnlessDone(node, found) (ast.Node,
+								// bool)`): its callers are held to the same rule for
+								// that result
+								h := x.Parent()
+								if p.CG.Nodes[h] == nil || !inModule(h) || len(p.CG.Nodes[h].In) == 0 {
+									bad = "returned at " + p.pos(x.Pos())
+									break
+								}
+								for i, rv := range x.Results {
+									if rv != v {
+										continue
+									}
 									for _, e := range p.CG.Nodes[h].In {
-										if c, ok := e.Site.(*ssa.Call); ok && c.Call.StaticCallee() == h {
-											visit(c)
-										} else {
+										c, ok := e.Site.(*ssa.Call)
+										if !ok || c.Call.StaticCallee() != h {
 											bad = "returned at " + p.pos(x.Pos()) + " to a caller that is not a plain call"
+											break
+										}
+										if len(x.Results) == 1 {
+											visit(c)
+											continue
+										}
+										for _, cr := range *c.Referrers() {
+											if ex, ok := cr.(*ssa.Extract); ok && ex.Index == i {
+												visit(ex)
+											}
 										}
 									}
-								} else {
-									bad = "returned at " + p.pos(x.Pos())
 								}
 							case *ssa.Store:
 								bad = "stored at " + p.pos(x.Pos())
